@@ -110,6 +110,15 @@ func (f *frame) callTarget(cc *ssa.CallCommon, fnVal *Value, args []Value, n *no
 	}
 	c := x.S.Contracts[key]
 	if c != nil && !c.Inline {
+		x.freeAtCall = nil
+		if callee != nil && len(free) == len(callee.FreeVars) {
+			// a closure called through its contract: the names of its captured variables mean what was captured
+			x.freeAtCall = map[string]Value{}
+			for q, fv := range callee.FreeVars {
+				x.freeAtCall[fv.Name()] = free[q]
+			}
+		}
+		defer func() { x.freeAtCall = nil }()
 		return x.applyContract(f, n, c, callee, cc, args, st, pos, rt, site)
 	}
 	if callee != nil && callee.Blocks != nil && strings.HasPrefix(pkgPathOf(callee), modPath) {
@@ -177,6 +186,9 @@ func (sc *specCtx) bindArgs(c *Contract, callee *ssa.Function, cc *ssa.CallCommo
 		for _, p := range callee.Params {
 			names = append(names, p.Name())
 		}
+	}
+	for k, v := range sc.x.freeAtCall {
+		sc.vars[k] = v
 	}
 	for i, a := range args {
 		if i < len(names) && names[i] != "" && names[i] != "_" {
